@@ -218,6 +218,12 @@ func c17Property(t *rapid.T) {
 		{"RuleManager", constant.RuleManagerContractAddr, "RegisterRule", []*pb.Arg{pb.String("chainB"), pb.String("0x00000000000000000000000000000000000000a2"), pb.String("http://r")}, "admin-of-the-target-appchain"},
 		{"RuleManager", constant.RuleManagerContractAddr, "UpdateMasterRule", []*pb.Arg{pb.String("chainB"), pb.String("0x00000000000000000000000000000000000000a2"), pb.String("r")}, "admin-of-the-target-appchain"},
 		{"RuleManager", constant.RuleManagerContractAddr, "LogoutRule", []*pb.Arg{pb.String("chainB"), pb.String("0x00000000000000000000000000000000000000a2")}, "admin-of-the-target-appchain"},
+		// the transaction manager's entry points on an existing one-to-many transaction (its record was opened through
+		// the interchain contract): contract-to-contract only, whatever id is named
+		{"TransactionManager", constant.TransactionMgrContractAddr, "BeginMultiTXs", []*pb.Arg{pb.String(tpl.Data["openGroup"]), pb.String(sim.IBTPID(sim.FullID(w.BxhID, "chainC", "s1"), sim.FullID(w.BxhID, "chainB", "s2"), 1)), pb.Uint64(0), pb.Bool(true), pb.Uint64(2)}, ""},
+		{"TransactionManager", constant.TransactionMgrContractAddr, "BeginMultiTXs", []*pb.Arg{pb.String(tpl.Data["openGroup"]), pb.String(sim.IBTPID(sim.FullID(w.BxhID, "chainC", "s1"), sim.FullID(w.BxhID, "chainB", "s2"), 1)), pb.Uint64(0), pb.Bool(false), pb.Uint64(2)}, ""},
+		{"TransactionManager", constant.TransactionMgrContractAddr, "Report", []*pb.Arg{pb.String(tpl.Data["openGroupChild"]), pb.Int32(1)}, ""},
+		{"TransactionManager", constant.TransactionMgrContractAddr, "Report", []*pb.Arg{pb.String(tpl.Data["openGroupChild"]), pb.Int32(0)}, ""},
 		// chainD's admin set was reduced by an approved update; none of the sweep's roles is an admin of chainD
 		{"RuleManager", constant.RuleManagerContractAddr, "UpdateMasterRule", []*pb.Arg{pb.String("chainD"), pb.String(tpl.Data["chainD-rule"]), pb.String("r")}, ""},
 		{"RuleManager", constant.RuleManagerContractAddr, "LogoutRule", []*pb.Arg{pb.String("chainD"), pb.String(tpl.Data["chainD-rule"])}, ""},
